@@ -538,3 +538,77 @@ def opens (w : World) (s : State) (input : Nat) : Option Str :=
       else none
 
 end Ui
+
+/-
+  The parts of `ui/ui.go` around the key handler, at the grain the translation of
+  `switchTo` / `loadSurroundings` / `SetWidthHeight` (`Generated/GoSwitch.lean`,
+  `Props/Gen07s.lean`) is compared with: the terminal size, and `loadSurroundings` taken apart into
+  what starts a loader and what a loader leaves of its page when it finishes.  The settled
+  `loadSurroundings` above is these put together (`loadSurroundings_eq_loaders`).
+-/
+
+namespace Ui
+open Pub
+
+/-- `width`, `height` of `ui.State`. -/
+structure Size where
+  width : Int
+  height : Int
+
+/-- `SetWidthHeight(w, h)`: the size afterwards, and whether a frame is drawn (none when the size
+    is the one the state already has). -/
+def setWidthHeight (sz : Size) (w h : Int) : Size × Bool :=
+  if sz.width = w ∧ sz.height = h then (sz, false) else (⟨w, h⟩, true)
+
+/-- `loadingUp`, `loadingDown` of a Go page: true exactly while a loader of the page runs. -/
+structure Flags where
+  up : Bool := false
+  down : Bool := false
+
+/-- `loadSurroundings` starts the upward loader: none runs, the feed does not reach `context`
+    entries above the cursor, there is a frontier to ask. -/
+def startsUp (ctx : Nat) (p : Page) (fl : Flags) : Bool :=
+  !fl.up && !Feed.contains p.feed (-(ctx : Int)) && p.frontier.isSome
+
+/-- `loadSurroundings` starts the downward loader. -/
+def startsDown (ctx : Nat) (p : Page) (fl : Flags) : Bool :=
+  !fl.down && !Feed.contains p.feed (ctx : Int) && p.children.isSome
+
+/-- What the upward loader leaves of its page: `context` more ancestors in front, the new
+    frontier. -/
+def upDone (w : World) (ctx : Nat) (p : Page) : Page :=
+  match p.frontier with
+  | some fr =>
+    let r := parentsOf w ctx fr
+    { p with feed := Feed.prepend p.feed r.1, frontier := r.2 }
+  | none => p
+
+/-- What the downward loader leaves of its page: `context` more children behind, the container
+    and starting point to go on from. -/
+def downDone (w : World) (ctx : Nat) (p : Page) : Page :=
+  match p.children with
+  | some c =>
+    let r := c.harvest w ctx p.basepoint
+    { p with feed := Feed.append p.feed r.1, children := r.2.1, basepoint := r.2.2 }
+  | none => p
+
+/-- The settled `loadSurroundings` is: the start conditions on the page as it is (no loader
+    running), then the upward loader's completion, then the downward one's. -/
+theorem loadSurroundings_eq_loaders (w : World) (s : State) :
+    loadSurroundings w s =
+      match History.current s.hist with
+      | .error e => .error e
+      | .ok page =>
+        let p1 := if startsUp s.context page {} then upDone w s.context page else page
+        .ok (setCurrent s (if startsDown s.context page {} then downDone w s.context p1 else p1)) := by
+  unfold loadSurroundings
+  cases History.current s.hist with
+  | error e => rfl
+  | ok page =>
+    simp only [startsUp, startsDown, upDone, downDone, Bool.not_false, Bool.true_and]
+    cases hf : page.frontier <;> cases hc : page.children <;>
+      cases hu : Feed.contains page.feed (-(s.context : Int)) <;>
+      cases hd : Feed.contains page.feed (s.context : Int) <;>
+      simp [hf, hc]
+
+end Ui
